@@ -208,6 +208,82 @@ def tuple_module(cx, nsamples=2, nburnout=1):
     return "ok"
 
 
+class FPnn(torch.nn.Module):
+    """f and log p are two methods of ONE module; both read the shared parameter w"""
+    def __init__(self, a, w):
+        super().__init__()
+        self.a = torch.nn.Parameter(a)
+        self.w = torch.nn.Parameter(w)
+
+    def forward(self, x, b):
+        return _f(x, self.a, b) * self.w
+
+    def logp(self, x):
+        return (-self.w * x * x).sum()
+
+
+class FPed(xitorch.EditableModule):
+    def __init__(self, a, w):
+        self.a = a
+        self.w = w
+
+    def forward(self, x, b):
+        return _f(x, self.a, b) * self.w
+
+    def logp(self, x):
+        return (-self.w * x * x).sum()
+
+    def getparamnames(self, methodname, prefix=""):
+        if methodname == "forward":
+            return [prefix + "a", prefix + "w"]
+        if methodname == "logp":
+            return [prefix + "w"]
+        raise KeyError(methodname)
+
+
+def same_object(cx, kind="nn", nsamples=2, nburnout=1):
+    """f and log p given as two methods of the same object (mhcustom, deterministic step): values and first/second-order
+    gradients equal those of the pure-function call on the same leaves"""
+    s = cx.scalar("s")
+    delta = cx.scalar("delta")
+    x0 = cx.sym("x0", (1,))
+    a0 = cx.sym("a", (), requires_grad=True)
+    w0 = cx.sym("w", (), requires_grad=True)
+    b = cx.sym("b", (), requires_grad=True)
+    g = cx.sym("g", (1,))
+    mod = FPnn(a0, w0) if kind == "nn" else FPed(a0, w0)
+    a, w = mod.a, mod.w
+
+    def step(x, *pparams):
+        return x * s + delta
+    res = mcquad(mod.forward, mod.logp, x0, fparams=(b,), pparams=(), method="mhcustom", nsamples=nsamples,
+                 nburnout=nburnout, custom_step=step)
+    ref = mcquad(lambda x, a_, b_, w_: _f(x, a_, b_) * w_, lambda x, w_: (-w_ * x * x).sum(), x0, fparams=(a, b, w),
+                 pparams=(w,), method="mhcustom", nsamples=nsamples, nburnout=nburnout, custom_step=step)
+    l1, l2 = (g * res).sum(), (g * ref).sum()
+    cx.claim_eq("value", l1, l2)
+    leaves = [a, b, w]
+    g1 = grads(l1, leaves, create_graph=True)
+    g2 = grads(l2, leaves, create_graph=True)
+    for nm, x, y in zip(["a (object-held, f only)", "b", "w (object-held, f and log p)"], g1, g2):
+        cx.claim_eq("d/d" + nm, x, y)
+    # plain (non-recording) backward as well
+    res_b = mcquad(mod.forward, mod.logp, x0, fparams=(b,), pparams=(), method="mhcustom", nsamples=nsamples,
+                   nburnout=nburnout, custom_step=step)
+    for nm, x, y in zip(["a", "b", "w"], grads((g * res_b).sum(), leaves), g2):
+        cx.claim_eq("plain backward d/d" + nm, x, y)
+    c1 = sum((0.5 * (i + 1) * gi).sum() for i, gi in enumerate(zero_if_none(g1, leaves)))
+    c2 = sum((0.5 * (i + 1) * gi).sum() for i, gi in enumerate(zero_if_none(g2, leaves)))
+    for nm, x, y in zip(["a", "b", "w"], grads(c1, leaves), grads(c2, leaves)):
+        cx.claim_eq("d2/d" + nm, x, y)
+    if kind == "nn":
+        cx.claim_true("module parameters restored", list(dict(mod.named_parameters()).keys()) == ["a", "w"]
+                      and mod.a is a and mod.w is w)
+    else:
+        cx.claim_true("object attributes restored", mod.a is a and mod.w is w)
+    return "ok"
+
+
 def configs(tier):
     cfgs = []
 
@@ -224,6 +300,8 @@ def configs(tier):
         for kind in ("derived", "duplicate"):
             add("param_graph/%s/%s" % (where, kind), param_graph, kind=kind, where=where)
     add("tuple_module/nn", tuple_module)
+    add("same_object/nn", same_object, kind="nn")
+    add("same_object/editable", same_object, kind="editable")
     add("mh/ns2_nb1", mh_two, nsamples=2, nburnout=1, opts={"max_paths": 300})
     if tier == "thorough":
         add("mhcustom/ns4_nb3/tuple", custom, nsamples=4, nburnout=3, out="tuple", opts={"budget_s": 900})
